@@ -59,6 +59,8 @@ PRICE_MOVES = [  # (changes, description)
     ({'Production Tax Credit {p}': '+ptc'}, 'production tax credit added'),
 ]
 PRICE_BASE = {'Starting {p} Sale Price': 0.06, 'Ending {p} Sale Price': 0.09, '{p} Escalation Start Year': 2, '{p} Escalation Rate Per Year': 0.012}
+# the three products get different schedules (a slip that builds one product's price from another's parameters must show)
+PRICE_SHIFT = {'Electricity': (0.0, 0.0, 0, 0.0), 'Heat': (0.03, 0.05, -1, 0.004), 'Cooling': (-0.02, -0.03, 1, -0.005)}
 
 
 def price_series(d, prod, L):
@@ -78,8 +80,8 @@ def price_task(payload):
     prods = payload['products']
     ch = {}
     for p in prods:
-        for k, v in PRICE_BASE.items():
-            ch[k.replace('{p}', p)] = repr(v)
+        for (k, v), sh in zip(PRICE_BASE.items(), PRICE_SHIFT[p]):
+            ch[k.replace('{p}', p)] = repr(round(v + sh, 6))
     ch['Production Tax Credit Duration'] = str(min(3, L))
     base_d = F.override(F.fam_base(fam), ch)
     b = rn.run(F.lines(base_d), want=(), tagname='price base')
